@@ -119,6 +119,24 @@ func (n *node[T]) addMethods(h T, pattern string, ms []types.Middleware[T], meth
 	return nil
 }
 
+// 根据现有的节点重新统计各个请求方法的数量
+func (tree *Tree[T]) recountMethods() {
+	clear(tree.methods)
+	tree.node.countMethods(tree.methods)
+	tree.buildMethods(0)
+}
+
+func (n *node[T]) countMethods(methods map[string]int) {
+	for _, c := range n.children {
+		for m := range c.handlers {
+			if m != http.MethodHead && m != http.MethodOptions && m != methodNotAllowed {
+				methods[m]++
+			}
+		}
+		c.countMethods(methods)
+	}
+}
+
 // num 表示为该请求方法加上的计数
 func (tree *Tree[T]) buildMethods(num int, methods ...string) {
 	for _, m := range methods {
